@@ -115,6 +115,24 @@ CLAIMED["C18"] = (
     "FlowDone once and last, TaskSkipped exactly once per non-invoked task and never for an invoked one (C18_flow_outcome_once, C18_flow_done_last, C18_skipped_once). Tie: 18 methods of the 4 emitter kinds with "
     "payload identity on the real stack; recorded events of generated flows with one or two stacked emitters under all single-failure scenarios.",
     GEN_NOTE + " Parallel directives' events are covered with C10.", "DESIGN.md §7 C18")
+CLAIMED["C13"] = (
+    "Coq proof about the splicing of generated text into the source and about a model of printImportAlias with its per-file maps + correspondence: differential run of the real printImportAlias; generated corpus with spelling variants through the real cff in base, source-map and -auto-instrument modes, type-checked without the cff tag; named probes",
+    "Partial, labelled so. Theorems: the directive calls left in the output are exactly those of the untouched segments plus those of the generated texts; none remains when every call lies in a replaced interval and no argument "
+    "expression contains one (C13_directive_count, C13_no_directive_left, C13_generated_text_clean; C13_nested_refuted is the model witness of known finding F8); generated imports get one name per path, stable, pairwise distinct, "
+    "never a name of the file's own imports, and the mangling loop terminates (C13_import_names, C13_import_loop_terminates). Not theorems: that the output type-checks and that the tool never panics are observed on every run.",
+    GEN_NOTE + " Known findings F7 (local identifier named like a package the generated code uses) and F8 (nested directive) are reported from named probes.", "DESIGN.md §7 C13")
+CLAIMED["C17"] = (
+    "Coq proof that the unordered/random inputs of the generator (map of hoisted expressions, map of new imports, set of taken names, random magic token) cannot influence the text + correspondence: byte comparison of repeated cff processes and of -file selections in base and source-map mode",
+    "Partial, labelled so. Theorems: the prologue and the added imports depend only on the set recorded (C17_prologue_order_irrelevant, C17_import_order_irrelevant); the import names and addImports do not depend on the order in which "
+    "the file's imports seed the set of taken names (C17_alias_seed_irrelevant); no magic comment survives and the output is the same for every token value not occurring as a user comment (C17_no_magic_left, C17_token_irrelevant). "
+    "Independence from the other files processed is the absence of shared generator state: observed (every file alone vs with its package), not proved.",
+    GEN_NOTE, "DESIGN.md §7 C17")
+CLAIMED["C20"] = (
+    "Coq proof that source-map rendering adds only comments and line directives to base rendering + correspondence: token streams of real base and source-map outputs; differential execution of base-mode and modifier-mode code against each other and the flow semantics model",
+    "Partial, labelled so. Theorem: for every template output and any token values the code of the source-map file equals the code of the base file (C20_sourcemap_same_code) and no magic comment remains. Modifier mode (subset: Params, "
+    "Results, Concurrency, plain Tasks) is decided by differential execution only: same results and errors as base-mode code and as FlowSemModel for all single-outcome scenarios {ok, error, panic} of generated subset flows. Known "
+    "finding F10 (function-local types in modifier mode) is outside the generated corpus and recorded in DESIGN.md only.",
+    GEN_NOTE, "DESIGN.md §7 C20")
 CLAIMED["C11"] = (GEN_TECH,
     "For every flow, scenario, task and valuation: predicate false => the task function is not called, its outputs are the zero values and it cannot fail the flow "
     "(C11_false_*); the function is invoked only if there is no predicate or it returned true (C11_invoked_only_if_true); the predicate is called with exactly the values of "
